@@ -156,7 +156,7 @@ func encodeCommand(args [][]byte) []byte {
 }
 
 // commands whose reply order comes out of a Go map: pairs are sorted before comparison
-var pairSorted = map[string]int{"HGETALL": 0, "HSCAN": 3} // index of the token where the pair list header sits
+var pairSorted = map[string]int{"HGETALL": 0, "HSCAN": 2} // index of the token where the pair list header sits
 
 func canonical(name string, toks []tok) []string {
 	out := make([]string, len(toks))
